@@ -468,12 +468,14 @@ Spec == Init /\ [][Next]_vars
 (* Properties of the design (the observation level statement is AuthProp)  *)
 (***************************************************************************)
 NoLeak == leaks = {}
-\* the code as it is today leaks, but only through these three mechanisms
+\* the code as it is today leaks, but only through these three mechanisms; in particular a
+\* credential chosen by a handler that is keyed by the clientHost's own hostname never reaches
+\* another host (registries, mirror and upstream stay separated whatever the servers do)
 LeaksOnlyKnown ==
   \A l \in leaks :
-     \/ l.k = "O1" /\ l.via = "foreign-handler"       \* S3: handler keyed by a foreign host, own credentials
-     \/ l.k = "O1" /\ l.via = "copied" /\ <<l.o, l.to>> \in SubDomain   \* net/http copies to sub domains
-     \/ l.k = "O2"                                                      \* host keyed handler ignores the scheme
+     \/ l.k = "O1" /\ l.via = "foreign-handler"   \* S3: handler keyed by a foreign host, the clientHost's credentials
+     \/ l.k = "O1" /\ l.via = "copied"            \* net/http copies Authorization to sub domains of the first host
+     \/ l.k = "O2"                                \* the host keyed handler ignores the scheme
 \* each repair removes its class
 S3Repaired == HonorsHost => \A l \in leaks : ~(l.k = "O1" /\ l.via = "foreign-handler")
 SchemeRepaired == (SchemeBound /\ HonorsHost) => \A l \in leaks : l.k # "O2"
